@@ -17,7 +17,8 @@ CHECKS = {
             "nodes as states of a derivation machine, proves the printer/parser round-trip theorem on the "
             "specification, and exports four renderings per tree; each is parsed by the real lexer+parser and the "
             "AST compared structurally with the generating tree. MC_C05_chain adds left- and right-nested operator runs "
-            "of up to 58 (thorough: 140) operators; Trace_Reduce validates the real parser's reduction order.",
+            "of up to 148 (thorough: 560) operators; a separate shallow run plants the same long path under a namespaced and a plain "
+            "root; Trace_Reduce validates the real parser's reduction order.",
             "Trusted: spec/OData.tla precedence table (transcribed from OData 4.01 5.1.1.14), harness/project.py "
             "AST projection, TLC. Bounded: <=2/3 operators; deeper trees only by simulation."),
     "C13": ("DESIGN.md 6/C13",
@@ -60,7 +61,8 @@ CHECKS = {
             "TLC renders filter trees under every whitespace/BWS/keyword-case layout (MC_C19), invariant: spec "
             "lexer+parser read every layout as the expected tree; replayed into the real parser (AST + py_val) and "
             "through the backends (same result as canonical spelling)",
-            "Exhaustive: all filters with <=1 (thorough 2) and/or/not over 17 keyword-bearing predicates x 42 layouts.",
+            "Exhaustive: all filters with <=1 (thorough: sampled 2) and/or/not over keyword-bearing predicates x 72 layouts "
+            "(9 whitespace fills incl. runs of 20 blanks / newline + 17 tabs, optional whitespace on/off, 4 keyword cases incl. mIxEd).",
             "Trusted: spec/Lex.tla; backend equivalence compares results on the harness databases."),
     "C20": ("DESIGN.md 6/C20",
             "TLC explores the session machine MC_C20 (calls binding lexer/parser instances to probes, token-granular "
@@ -68,14 +70,16 @@ CHECKS = {
             "explicit hand-off per token pull); outcomes and pulled-token streams compared with fresh instances and "
             "with the spec outcome; hash-seed x import-order configurations in fresh subprocesses",
             "Exhaustive within bounds: all sequential histories of <=2 (thorough 3) calls over 3 instance pairings x 16 "
-            "probes; all schedules of 2 interleaved calls with <=2 (thorough 3) switches over 6 (9) probes (quick "
-            "replays a seeded sample of 6000 schedules); 4 import orders x up to 4 hash seeds.",
+            "probes (31 now), each history also replayed after a rewriter construction that fails half-way on the same "
+            "instances; outcomes include the error message and every further error attribute; all schedules of 2 interleaved "
+            "calls with <=2 (thorough 3) switches over 7 (11) probes (quick replays a seeded sample of 6000 schedules); "
+            "4 import orders x up to 4 hash seeds.",
             "Trusted: the hand-off harness; spec outcome per probe from Lex.tla/OData.tla."),
     "C14": ("DESIGN.md 6/C14",
             "TLC enumerates (tree, alias map) pairs (MC_C14) and computes the expected tree with the TLA+ substitution "
             "operator Rewrite!Subst (identity/bijection laws checked as invariants); replayed into AliasRewriter",
-            "Exhaustive within bounds: all trees with <=1 (thorough 2) operator/bracket nodes over 20 colliding atoms x "
-            "17 adversarial alias maps; result, input immutability, repeatability (fresh/reused/shared rewriter) and "
+            "Exhaustive within bounds: all trees with <=1 (thorough 2) operator/bracket nodes over 27 colliding atoms x "
+            "19 adversarial alias maps; result, input immutability, repeatability (fresh/reused/shared rewriter) and "
             "the bijection inverse are checked on the real code.",
             "Trusted: spec/Rewrite.tla; harness/project.py."),
     "C16": ("DESIGN.md 6/C16",
@@ -92,7 +96,7 @@ CHECKS = {
     "C17": ("DESIGN.md 6/C17",
             "TLC enumerates (expression, variable) pairs (MC_C17) and computes Rewrite!Relative; replayed into "
             "expression_relative_to_identifier incl. immutability and call-history independence",
-            "Exhaustive within bounds: all trees with <=1 (thorough 2) operator/bracket nodes over 25 path/lambda atoms "
+            "Exhaustive within bounds: all trees with <=1 (thorough 2) operator/bracket nodes over 27 path/lambda/literal atoms "
             "x 3 variable names, visited in two different orders with interleaved foreign calls.",
             "Trusted: spec/Rewrite.tla; harness/project.py."),
     "C18": ("DESIGN.md 6/C18",
